@@ -90,6 +90,19 @@ func genC19(t *rapid.T) c19Prog {
 			}
 		}
 	}
+	// sometimes several objects carry ONE identifier (a tampered copy next to the original, say) or none yet
+	// (entries that were not hashed so far): the clocks still decide, and only equal hash AND equal clock is "equal"
+	if rapid.IntRange(0, 4).Draw(t, "sharedHash") == 0 {
+		h := p.Pool[0].Hash
+		if rapid.IntRange(0, 2).Draw(t, "undefined") == 0 {
+			h = undefHash
+			p.Pool[0].Hash = h
+		}
+		k := rapid.IntRange(1, n-1).Draw(t, "sharedHashN")
+		for i := 1; i <= k; i++ {
+			p.Pool[i].Hash = h
+		}
+	}
 	p.Perm = rapid.SliceOfN(rapid.IntRange(0, 1<<20), n+3, n+3).Draw(t, "perm")
 	p.Dups = rapid.SliceOfN(rapid.IntRange(0, n-1), 0, 3).Draw(t, "dups")
 	if rapid.IntRange(0, 3).Draw(t, "long") == 0 {
@@ -108,11 +121,26 @@ func seq(n int) []int {
 	return o
 }
 
+// undefHash is the Hash value of an entry that has not been given an identifier yet (cid.Undef).
+const undefHash = 1 << 20
+
+func hashOf(i int) cid.Cid {
+	if i == undefHash {
+		return cid.Undef
+	}
+	return hashPool[i%len(hashPool)]
+}
+
+// keyOf tells list elements apart where the hash alone does not (objects under one identifier with different clocks).
+func keyOf(e iface.IPFSLogEntry) string {
+	return fmt.Sprintf("%s/%d/%x", e.GetHash().String(), e.GetClock().GetTime(), e.GetClock().GetID())
+}
+
 func mk(s synthEntry) iface.IPFSLogEntry {
 	return &entry.Entry{
 		LogID:   "L",
 		Payload: []byte("p"),
-		Hash:    hashPool[s.Hash%len(hashPool)],
+		Hash:    hashOf(s.Hash),
 		Clock:   entry.NewLamportClock([]byte(s.ID), s.Time),
 		V:       2,
 	}
@@ -147,6 +175,14 @@ func shuffled(xs []iface.IPFSLogEntry, choices []int) []iface.IPFSLogEntry {
 	return out
 }
 
+func keysOf(xs []iface.IPFSLogEntry) []string {
+	o := make([]string, len(xs))
+	for i, e := range xs {
+		o[i] = keyOf(e)
+	}
+	return o
+}
+
 func hashesOf(xs []iface.IPFSLogEntry) []string {
 	o := make([]string, len(xs))
 	for i, e := range xs {
@@ -162,6 +198,7 @@ func runC19(tb ev.TB, p c19Prog) ev.Result {
 	}
 	n := len(es)
 	eqTime, eqID, lwwTie := false, false, false
+	equalPair, sharedHash := false, false
 	hashDir := 0
 	clockCmp := func(a, b iface.IPFSLogEntry) (int, error) { return a.GetClock().Compare(b.GetClock()), nil }
 
@@ -188,8 +225,17 @@ func runC19(tb ev.TB, p c19Prog) ev.Result {
 			}
 			h1 := must(tb, "SortByEntryHash", sorting.SortByEntryHash, a, b)
 			h2 := must(tb, "SortByEntryHash", sorting.SortByEntryHash, b, a)
-			if h1 == 0 {
+			sameEntry := hashOf(sa.Hash).Equals(hashOf(sb.Hash)) && sa.Time == sb.Time && sa.ID == sb.ID
+			if sameEntry {
+				equalPair = true
+				if h1 != 0 {
+					tb.Fatalf("SortByEntryHash(%+v, %+v) = %d for entries equal in hash and clock", sa, sb, h1)
+				}
+			} else if h1 == 0 {
 				tb.Fatalf("SortByEntryHash not total: distinct entries %+v %+v compare 0", sa, sb)
+			}
+			if hashOf(sa.Hash).Equals(hashOf(sb.Hash)) && !sameEntry {
+				sharedHash = true
 			}
 			if sign(h1) != -sign(h2) {
 				tb.Fatalf("SortByEntryHash not antisymmetric on %+v %+v: %d vs %d", sa, sb, h1, h2)
@@ -279,12 +325,12 @@ func runC19(tb ev.TB, p c19Prog) ev.Result {
 		strict bool // strict total on the list -> unique result
 	}
 	sorters := []sorter{{"SortByEntryHash", sorting.SortByEntryHash, true}}
-	if !lwwTie && len(p.Dups) == 0 { // a duplicate is an equal-(id,time) pair: outside LWW's strict domain
+	if !lwwTie && (len(p.Dups) == 0 && !equalPair) { // a duplicate is an equal-(id,time) pair: outside LWW's strict domain
 		sorters = append(sorters, sorter{"LastWriteWins", sorting.LastWriteWins, true},
 			sorter{"FirstWriteWins", sorting.FirstWriteWins, true},
 			sorter{"NoZeroes(LastWriteWins)", sorting.NoZeroes(sorting.LastWriteWins), true})
 	}
-	if len(p.Dups) == 0 {
+	if (len(p.Dups) == 0 && !equalPair) {
 		sorters = append(sorters, sorter{"NoZeroes(SortByEntryHash)", sorting.NoZeroes(sorting.SortByEntryHash), true})
 	}
 	sorters = append(sorters, sorter{"Compare", sorting.Compare, false})
@@ -292,10 +338,10 @@ func runC19(tb ev.TB, p c19Prog) ev.Result {
 		for _, rev := range []bool{false, true} {
 			a := shuffled(list, p.Perm)
 			b := shuffled(list, p.Perm[1:])
-			inA := hashesOf(a)
+			inA := keysOf(a)
 			sorting.Sort(s.fn, a, rev)
 			sorting.Sort(s.fn, b, rev)
-			ha, hb := hashesOf(a), hashesOf(b)
+			ha, hb := keysOf(a), keysOf(b)
 			if !sameMultiset(inA, ha) {
 				tb.Fatalf("Sort(%s, rev=%v) is not a permutation of its input: in=%v out=%v", s.name, rev, inA, ha)
 			}
@@ -320,7 +366,7 @@ func runC19(tb ev.TB, p c19Prog) ev.Result {
 		sorting.Sort(sorting.SortByEntryHash, a, false)
 		sorting.Sort(sorting.SortByEntryHash, b, true)
 		sorting.Reverse(b)
-		if len(p.Dups) == 0 && !equalStrs(hashesOf(a), hashesOf(b)) {
+		if (len(p.Dups) == 0 && !equalPair) && !equalStrs(keysOf(a), keysOf(b)) {
 			tb.Fatalf("ascending sort is not the reverse of descending sort")
 		}
 	}
@@ -391,6 +437,9 @@ func runC19(tb ev.TB, p c19Prog) ev.Result {
 	if len(p.Dups) > 0 {
 		cl = append(cl, "list-with-duplicates")
 	}
+	if sharedHash {
+		cl = append(cl, "objects-with-one-identifier-and-different-clocks")
+	}
 	return ev.Result{NonTrivial: eqTime && eqID, Classes: cl}
 }
 
@@ -437,7 +486,7 @@ func equalStrs(a, b []string) bool {
 
 func TestC19(t *testing.T) {
 	c := ev.Get("C19")
-	c.Rule = "rapid-generated pools of 2-9 synthetic entries (distinct hashes; times from {0,1,2,3,2^31,2^62,random>=0}; clock ids from a pool with prefix relations); every ordered pair and triple of the pool is checked against the order laws, and every sorter is run on two different shuffles (+ duplicates) of the pool. Non-trivial = the pool has at least one equal-time pair and at least one equal-clock-id pair; distinct = distinct generated program (sha256 of its JSON)."
+	c.Rule = "rapid-generated pools of 2-9 synthetic entries (distinct hashes - in a fifth of the pools several objects share one identifier or have none yet (cid.Undef), with whatever clocks: only equal hash AND equal clock is the same entry; times from {0,1,2,3,2^31,2^62,random>=0}; clock ids from a pool with prefix relations); every ordered pair and triple of the pool is checked against the order laws, and every sorter is run on two different shuffles (+ duplicates) of the pool. Non-trivial = the pool has at least one equal-time pair and at least one equal-clock-id pair; distinct = distinct generated program (sha256 of its JSON)."
 	c.Assumptions = []string{"clock times are non-negative Lamport times <= 2^62 (Compare subtracts, so mixed-sign extremes would overflow; outside the documented domain)", "entries with equal hashes are equal entries (same clock)"}
 	ev.Check(t, "C19", genC19, runC19)
 }
